@@ -854,6 +854,12 @@ type fsmTxnCommitIndexTracker struct {
 	// invalidate the list on /foo (as it adds /bar in). Luckily, we can use
 	// paginated lists to see if bar is contained in foo/'s tree already.
 	indexModifiedMap map[uint64]map[string]struct{}
+
+	// completeSince is the applied index at which the database was last
+	// opened (process start or snapshot install). indexModifiedMap only holds
+	// writes applied after that, so for a window starting below it the absence
+	// of a record does not mean the absence of a write.
+	completeSince uint64
 }
 
 func FsmTxnCommitIndexTracker() *fsmTxnCommitIndexTracker {
@@ -914,6 +920,19 @@ func (t *fsmTxnCommitIndexTracker) completeTransaction(index uint64) {
 	}
 }
 
+// reset forgets all recorded writes and notes that writes at or below
+// appliedIndex are unknown to this tracker. All replicas must reach the same
+// verdict for a transaction, so a replica that was restarted or restored from
+// a snapshot has to fall back to verifying against storage for transactions
+// which started before that point.
+func (t *fsmTxnCommitIndexTracker) reset(appliedIndex uint64) {
+	t.l.Lock()
+	defer t.l.Unlock()
+
+	clear(t.indexModifiedMap)
+	t.completeSince = appliedIndex
+}
+
 // Logs a single, non-transactional write.
 func (t *fsmTxnCommitIndexTracker) logWrite(index uint64, key string) {
 	t.l.Lock()
@@ -935,6 +954,11 @@ func (t *fsmTxnCommitIndexTracker) logTxnWrites(index uint64, writes map[string]
 func (t *fsmTxnCommitIndexTracker) hasModifiedEntry(minIndex uint64, maxIndex uint64, key string) (uint64, bool) {
 	t.l.Lock()
 	defer t.l.Unlock()
+
+	if minIndex < t.completeSince {
+		// We do not know what was written in (minIndex, completeSince].
+		return t.completeSince, true
+	}
 
 	for index, modifications := range t.indexModifiedMap {
 		if index <= minIndex {
@@ -959,6 +983,11 @@ func (t *fsmTxnCommitIndexTracker) hasModifiedEntry(minIndex uint64, maxIndex ui
 func (t *fsmTxnCommitIndexTracker) hasModifiedListEntry(minIndex uint64, maxIndex uint64, key string) (uint64, bool) {
 	t.l.Lock()
 	defer t.l.Unlock()
+
+	if minIndex < t.completeSince {
+		// We do not know what was written in (minIndex, completeSince].
+		return t.completeSince, true
+	}
 
 	normKey := key
 	if len(key) > 0 && key[len(key)-1] != '/' {
